@@ -90,8 +90,8 @@ func TestProbe(t *testing.T) {
 	case <-time.After(3 * time.Second):
 		fmt.Println("manager.Wait HANGS")
 	}
-	for _, n := range mgr.Names() {
-		tk, _ := mgr.Get(n)
+	for _, n := range []string{"a","b","c","c:n1","c:n2","d","e","z"} {
+		tk, ok := mgr.Get(n); if !ok { fmt.Println("task", n, "absent"); continue }
 		fmt.Println("task", n, "status", tk.Status(), "errors", len(tk.Errors()))
 	}
 	fmt.Println("root err:", root.Err())
